@@ -92,9 +92,6 @@ func pruneAryNulls(ary *partialArray, options *ApplyOptions) *partialArray {
 	newAry := []*lazyNode{}
 
 	for _, v := range ary.nodes {
-		if v != nil {
-			pruneNulls(v, options)
-		}
 		newAry = append(newAry, v)
 	}
 
